@@ -41,8 +41,6 @@ FIELD = [
     ins(A.body_start(), '''
         let ghost w0 = w@;
         let ghost c0 = self.cfg();'''),
-    rep(A.text('None => self'), 'None => match self', tag='T14b'),
-    rep(A.span('.map_err(|e|', '?'), O.MAP_ERR_TAIL, tag='T14b', note='map_err(..)? is a match returning the converted error'),
     rep(A.span('if self.custom_translations(&ts_ty).is_some() {', '.or_default() .insert(field.id.renamed.clone()); }'),
         'note_field_translation(&mut self.types_for_custom_json_translation, &ts_ty, &field.id.renamed);', tag='T3'),
     rep(A.span('field .decorators', '.is_some()'), 'is_readonly_field(field)', tag='T3'),
@@ -62,7 +60,7 @@ UNIT = Unit(
     name='opt_ts', props=['C04', 'C07'], pre_verus=O.PRE_VERUS, spec_files=['std_slices.rs', 'typexpr.rs', 'txt.rs', 'optmark.rs'], prelude=PRELUDE,
     items=O.base_items('TypeScript', SRC) + [
         Item('write_field', SRC, ['impl TypeScript {', 'fn write_field'], FIELD, wrap=('impl TypeScript {\n', '\n}\n'),
-             auto=('fmt', 'strlit', 'then_some')),
+             auto=('fmt', 'strlit', 'then_some', 'map_err_q')),
     ],
     functions=['TypeScript::write_field', 'RustType::is_optional', 'RustType::is_double_optional'],
     trusted=O.TRUSTED + ['outlined: reviver bookkeeping (touches only types_for_custom_json_translation); readonly lookup; typescript_property_aware_rename is a pure function of the name'],
